@@ -30,9 +30,6 @@ theorem enum_tables_match :
     ST_values = Spec.stationTypes ∧ LTbase_values = [0, 1, 2, 3] ∧ M_values = [0, 1] ∧ GnIsMobile_values = [0, 1] ∧
     (∀ ht ∈ Spec.headerTypes, hstCodes ht = Spec.subTypes ht) := tables
 
-/-- field values of a basic header with another RHL -/
-def basicValuesRaw (h : BasicHeader) (rhl : Nat) : List Int := [h.version, h.nh, h.reserved, h.lt.mult, h.lt.base, rhl]
-
 /-! ## 1. Basic header -/
 
 theorem basic_encode_conforms (h : BasicHeader) (wf : h.WF) :
@@ -169,9 +166,6 @@ theorem spv_decode_conforms (p : ShortPV) (wf : p.WF) : ShortPV.decode (octets s
 
 theorem spv_decode_encode (p : ShortPV) (wf : p.WF) : ∃ bs, p.encode = .ok bs ∧ ShortPV.decode bs = .ok p :=
   ⟨_, ShortPV.encode_ok p wf, ShortPV.decode_encode p wf⟩
-
-/-- the 32-bit two's complement pattern of a coordinate, as the standard defines it -/
-def twos32 (v : Int) : Nat := if v < 0 then (v + 4294967296).toNat else v.toNat
 
 /-- **latitude and longitude are 32-bit two's complement** (negative values included): the encoded integer has
 `twos32 lat` in bits 64..95 and `twos32 lon` in bits 32..63, never raises, and the decoder returns the signed values -/
@@ -340,7 +334,7 @@ theorem shb_conforms (v : Variant) (hv : v.versionFromMib = true) (mib : Mib) (h
 /-- hop limit of the multi-hop source operations is an octet -/
 theorem srcHopLimit_lt (mib : Mib) (hm : mib.WF) (r : Request) (hr : r.WF) : srcHopLimit mib r < 256 := by
   unfold srcHopLimit; split
-  · exact hm.2.2
+  · exact hm.2.2.1
   · exact hr.2.2.2.2.2.2.2
 
 private theorem req_hop_wf (mib : Mib) (hm : mib.WF) (r : Request) (hr : r.WF) :
@@ -394,14 +388,14 @@ theorem guc_conforms (v : Variant) (hv : v.versionFromMib = true) (mib : Mib) (h
   have h5 : r.length = r.data.length := hr.2.2.2.2.1
   simp [h5, hht, HeaderType_GEOUNICAST, HeaderType_TSB, GUCExt.fields]
 
-/-- LS request (`_send_ls_request_packet`): NH = ANY, HT/HST = LS/request, TC 0, PL 0, RHL = MHL = itsGnDefaultHopLimit -/
+/-- LS request (`_send_ls_request_packet`): NH = ANY, HT/HST = LS/request, TC = itsGnDefaultTrafficClass, PL 0, RHL = MHL = itsGnDefaultHopLimit -/
 theorem ls_request_conforms (v : Variant) (hv : v.versionFromMib = true) (mib : Mib) (hm : mib.WF) (sn : Nat) (hsn : sn < 65536)
     (ego : LongPV) (he : ego.WF) (sought : GNAddr) (hs : sought.WF) :
     lsRequestPacket v mib sn ego sought = .ok (
       octets basicHeader (basicValues mib.version (srcLifetime v.capped none mib.defaultLifetimeS) mib.defaultHopLimit) ++
-      octets commonHeader (commonValues 0 6 0 ⟨false, false, 0⟩ mib.mobile 0 mib.defaultHopLimit) ++
+      octets commonHeader (commonValues 0 6 0 (TrafficClass.decodeInt mib.defaultTc) mib.mobile 0 mib.defaultHopLimit) ++
       octets lsRequest ([(sn : Int), 0] ++ ego.fields ++ sought.fields)) := by
-  have wb := srcBasic_wf v mib hm none _ hm.2.2
+  have wb := srcBasic_wf v mib hm none _ hm.2.2.1
   have wc := commonLS_wf mib hm LocationServiceHST_LS_REQUEST (by decide)
   have we : LSReqExt.WF (⟨sn, 0, ego, sought⟩ : LSReqExt) := ⟨hsn, by simp, he, hs⟩
   unfold lsRequestPacket
@@ -414,9 +408,9 @@ theorem ls_reply_conforms (v : Variant) (hv : v.versionFromMib = true) (mib : Mi
     (ego : LongPV) (he : ego.WF) (de : ShortPV) (hde : de.WF) :
     lsReplyPacket v mib sn ego de = .ok (
       octets basicHeader (basicValues mib.version (srcLifetime v.capped none mib.defaultLifetimeS) mib.defaultHopLimit) ++
-      octets commonHeader (commonValues 0 6 1 ⟨false, false, 0⟩ mib.mobile 0 mib.defaultHopLimit) ++
+      octets commonHeader (commonValues 0 6 1 (TrafficClass.decodeInt mib.defaultTc) mib.mobile 0 mib.defaultHopLimit) ++
       octets lsReply ([(sn : Int), 0] ++ ego.fields ++ de.fields)) := by
-  have wb := srcBasic_wf v mib hm none _ hm.2.2
+  have wb := srcBasic_wf v mib hm none _ hm.2.2.1
   have wc := commonLS_wf mib hm LocationServiceHST_LS_REPLY (by decide)
   have we : GUCExt.WF (⟨sn, 0, ego, de⟩ : GUCExt) := ⟨hsn, by simp, he, hde⟩
   unfold lsReplyPacket
@@ -429,7 +423,7 @@ theorem beacon_conforms (v : Variant) (hv : v.versionFromMib = true) (hb : v.bea
     (ego : LongPV) (he : ego.WF) :
     beaconPacket v mib ego = .ok (
       octets basicHeader (basicValues mib.version (srcLifetime v.capped none mib.defaultLifetimeS) 1) ++
-      octets commonHeader (commonValues 0 1 0 ⟨false, false, 0⟩ mib.mobile 0 1) ++ octets beacon ego.fields) := by
+      octets commonHeader (commonValues 0 1 0 (TrafficClass.decodeInt mib.defaultTc) mib.mobile 0 1) ++ octets beacon ego.fields) := by
   have wb := srcBasic_wf v mib hm none 1 (by omega)
   have wc := commonBeacon_wf v mib hm
   unfold beaconPacket
@@ -474,8 +468,8 @@ theorem beacon_mobile_flag_partial (v : Variant) (hb : v.beaconFlagFixed = false
 
 /-- witness: a MOBILE station's beacon carries 0x01 in the flags octet, not 0x80 -/
 theorem beacon_mobile_flag_witness :
-    (toBytesBE 8 (commonBeacon ⟨true, false, false⟩ ⟨1, 1, 10, 60⟩).encodeInt).getD 3 0 = 1 ∧
-    (toBytesBE 8 (commonBeacon ⟨true, true, false⟩ ⟨1, 1, 10, 60⟩).encodeInt).getD 3 0 = 128 := by
+    (toBytesBE 8 (commonBeacon ⟨true, false, false⟩ ⟨1, 1, 10, 60, 0⟩).encodeInt).getD 3 0 = 1 ∧
+    (toBytesBE 8 (commonBeacon ⟨true, true, false⟩ ⟨1, 1, 10, 60, 0⟩).encodeInt).getD 3 0 = 128 := by
   decide +kernel
 
 /-- everything else of the beacon conforms even for the code as it is: only the flags octet deviates -/
@@ -483,7 +477,7 @@ theorem beacon_conforms_partial (v : Variant) (hv : v.versionFromMib = true) (mi
     (hstat : v.beaconFlagFixed = false → mib.mobile = 0) (ego : LongPV) (he : ego.WF) :
     beaconPacket v mib ego = .ok (
       octets basicHeader (basicValues mib.version (srcLifetime v.capped none mib.defaultLifetimeS) 1) ++
-      octets commonHeader (commonValues 0 1 0 ⟨false, false, 0⟩ mib.mobile 0 1) ++ octets beacon ego.fields) := by
+      octets commonHeader (commonValues 0 1 0 (TrafficClass.decodeInt mib.defaultTc) mib.mobile 0 1) ++ octets beacon ego.fields) := by
   cases hb : v.beaconFlagFixed with
   | true => exact beacon_conforms v hv hb mib hm ego he
   | false =>
@@ -502,8 +496,8 @@ theorem version_partial (v : Variant) (hv : v.versionFromMib = false) (mib : Mib
   simp [srcBasic, BasicHeader.fields, basicValues, hv, h1, BasicNH_COMMON_HEADER]
 
 theorem version_witness :
-    (srcBasic ⟨true, false, false⟩ ⟨2, 1, 10, 60⟩ none 1).version = 1 ∧
-    (srcBasic ⟨true, false, true⟩ ⟨2, 1, 10, 60⟩ none 1).version = 2 := by decide
+    (srcBasic ⟨true, false, false⟩ ⟨2, 1, 10, 60, 0⟩ none 1).version = 1 ∧
+    (srcBasic ⟨true, false, true⟩ ⟨2, 1, 10, 60, 0⟩ none 1).version = 2 := by decide
 
 /-- **PL = payload length**: octets 4..5 of the common header of every request-built packet hold the number of
 payload octets handed over (BTP header + upper-layer payload), LS/beacon packets carry PL 0 -/
@@ -636,7 +630,7 @@ example : LongPV.WF ⟨⟨0, 15, 1⟩, 5, -900000000, -1800000000, true, -16384,
   simp [LongPV.WF, GNAddr.WF, inS32, inS15, Spec.stationTypes]
 example : GBCExt.WF ⟨65535, 0, ⟨⟨1, 5, 1⟩, 0, -1, -1, false, -1, 0⟩, -2147483648, 2147483647, 65535, 1, 0, 0⟩ := by
   simp [GBCExt.WF, LongPV.WF, GNAddr.WF, inS32, inS15, Spec.stationTypes]
-example : Mib.WF ⟨1, 1, 10, 60⟩ ∧ Request.WF ⟨2, 5, 0, ⟨false, false, 2⟩, 2, [1, 2], ⟨-1, -1, 1, 1, 0⟩, 1, none⟩ := by
+example : Mib.WF ⟨1, 1, 10, 60, 255⟩ ∧ Request.WF ⟨2, 5, 0, ⟨false, false, 2⟩, 2, [1, 2], ⟨-1, -1, 1, 1, 0⟩, 1, none⟩ := by
   simp [Mib.WF, Request.WF, Area.WF, TrafficClass.WF, inS32, Spec.commonNH, Spec.headerTypes, Spec.subTypes]
 example : CommonHeader.WF ⟨2, 0, 5, 0, ⟨true, false, 63⟩, 128, 65535, 255⟩ ∧
     CommonHeader.FlagsConformant ⟨2, 0, 5, 0, ⟨true, false, 63⟩, 128, 65535, 255⟩ := by
